@@ -299,6 +299,7 @@ let kvhist (type v) (cfg : v cfg) (rn : v runner) (vacuum_prog : (z list -> v ha
         let h = rd_int () in let k = rd_sval () in
         (match kv_get (geth h) k with None -> pr "_" | Some c -> pr "S"; pr_cv c);
         pr_bool (kv_is_tombstoned (geth h) k)
+    | "mark" -> pr "MK"
     | "dump" ->
         let h = rd_int () in let hd = geth h in
         pr_list (fun (k, c) -> pr_sval k; pr_cv c) (kv_dump hd);
@@ -462,9 +463,13 @@ let sqlhist () : unit =
   let cs : (int * sconn) list ref = ref [] in
   let getc i = try Stdlib.List.assoc i !cs with Not_found -> failwith ("no_conn_" ^ string_of_int i) in
   let setc i c = cs := (i, c) :: Stdlib.List.remove_assoc i !cs in
+  (* a storage fault announced for the next statement ("F Dn 0 0": its first DELETE under node/
+     fails; "F Dm 0 0": its first DELETE under merged/) *)
+  let cur_plan : fault list ref = ref no_faults in
+  let next_plan : fault list ref = ref no_faults in
   let exec : 'a. (row, 'a) prog -> 'a result * (row req * bool) list = fun p ->
-    let ((b', r), tr) = run_rows big_fuel no_faults None !b p in
-    b := b'; (r, tr) in
+    let ((b', r), tr) = run_rows big_fuel !cur_plan None !b p in
+    b := b'; cur_plan := no_faults; (r, tr) in
   let unordered = ref false in
   let opno = ref 0 in
   let last_write = ref 0 in
@@ -498,6 +503,7 @@ let sqlhist () : unit =
     pr ";"; incr opno; incr tick;
     let cur = ref (-1) in
     last_muts := 0;
+    cur_plan := !next_plan; next_plan := no_faults;
     if !skip_next > 0 then begin
       (* a statement that failed because of an injected storage fault: it is left out; a failed
          COMMIT ends the transaction like ROLLBACK *)
@@ -510,7 +516,14 @@ let sqlhist () : unit =
       pr "xerr"
     end else
     (match next () with
-    | "F" -> let _on = next () in let _k = rd_int () in skip_next := rd_int (); pr "F"
+    | "F" ->
+        let on = next () in let k = rd_int () in skip_next := rd_int ();
+        (match on with
+         | "Dn" | "Dm" ->
+             next_plan := [ { f_kind = z_of_small 3; f_pfx = (if on = "Dn" then PNode else PMerged); f_name = None;
+                              f_occ = z_of_small k; f_out = OErr; f_sticky = false } ]
+         | _ -> ());
+        pr "F"
     | "conn" -> let i = rd_int () in setc i sconn0; pr "ok"
     | "create" ->
         let i = rd_int () in cur := i; let ro = rd_bool () in
@@ -706,7 +719,16 @@ let run_case (fn : string) : unit =
       pr_absrow o (merge_rows t1 r1 t2 r2 o)
   | "merge_values" ->
       let a = rd_cval rd_row in let b = rd_cval rd_row in
-      (match merge_values a b with None -> pr "P" | Some v -> pr_cval_row v)
+      (match merge_values a b with None -> pr "P" | Some v -> pr_cval_row v);
+      (* the documented rule speaks about entries written at different times, or the same entry twice *)
+      if a.md <> b.md || a = b then (pr "|"; pr "dom")
+  | "merge_laws" ->
+      let a = rd_cval rd_row in let b = rd_cval rd_row in let c = rd_cval rd_row in
+      let m x y = match x, y with Some x, Some y -> merge_values x y | _ -> None in
+      let p = function None -> pr "P" | Some v -> pr_cval_row v in
+      Stdlib.List.iter (fun v -> pr "/"; p v)
+        [m (Some a) (Some b); m (Some b) (Some a); m (m (Some a) (Some b)) (Some c);
+         m (Some a) (m (Some b) (Some c)); m (Some a) (Some a); Some a]
   | "nodecodec" ->
       (* a mast node: keys, values, links ("-" = nil link, otherwise the bytes of the name) *)
       let ks = rd_list rd_sval in
@@ -780,7 +802,8 @@ let run_case (fn : string) : unit =
       (* payload is an opaque integer id for the kv layer *)
       let a = rd_cval rd_z in let b = rd_cval rd_z in
       let r = last_write_wins a b in
-      pr_z r.md; pr_z r.tomb; pr_z r.prev; pr_opt pr_z r.payload
+      pr_z r.md; pr_z r.tomb; pr_z r.prev; pr_opt pr_z r.payload;
+      if a.md <> b.md || a.tomb <> b.tomb || a = b then (pr "|"; pr "dom")
   | "kvhist" ->
       let mode = next () in let bf = rd_z () in
       (match mode with
